@@ -331,6 +331,27 @@ def run_polygon(mutate=None):
             inner = origin(g2.src[0]) if isinstance(g2, GPolygon) and isinstance(g2.src, tuple) else None
             check(f"C18.operator_dispatch.nary_folds_left[{opn}]", z3.BoolVal(isinstance(g2, GPolygon) and g2.how == opn and has(g2.src[1], c_._points) and isinstance(inner, GPolygon)
                                                                             and inner.how == opn and has(inner.src[0], a._points) and has(inner.src[1], b._points)))
+        # (5) the class-level constructors Polygon.from_union / from_intersection / from_difference: the result is the left fold of THAT set
+        # operation over the items in the order given, starting from the first item; it carries the requested name and mesh flag; no item is
+        # written or shared; a one-item sequence gives a new polygon with the item's (normalised) outline
+        for cname, opn in (("from_union", "union"), ("from_intersection", "intersection"), ("from_difference", "difference")):
+            items = [Polygon("a", points="A", mesh=True), Polygon("b", points="B"), Polygon("c", points="C")]
+            stored = [it._points for it in items]
+            for n_items in (1, 2, 3):
+                r = getattr(Polygon, cname)(list(items[:n_items]), name="made", mesh=False)
+                node, ok = r._points, True
+                for j in range(n_items - 1, 0, -1):        # peel the fold from the outside
+                    g = origin(node)
+                    ok = ok and isinstance(g, GPolygon) and g.how == opn and isinstance(g.src, tuple) and has(g.src[1], stored[j]) and not any(has(g.src[1], stored[i]) for i in range(n_items) if i != j)
+                    node = g.src[0] if ok else None
+                if ok:
+                    g0 = origin(node)
+                    ok = has(node, stored[0]) and not (isinstance(g0, GPolygon) and g0.how in OPS_) and not any(has(node, stored[i]) for i in range(1, n_items))
+                sym.check_terms(f"C18.class_constructors.left_fold_of_the_named_operation_over_the_items_in_order[{cname}; {n_items} items]", bool(ok))
+                sym.check_terms(f"C18.class_constructors.result_has_the_requested_name_and_mesh_flag[{cname}; {n_items} items]", bool(r.name == "made" and r.mesh is False and root_geom(r._points)))
+                sym.check_terms(f"C18.class_constructors.items_not_written_or_shared[{cname}; {n_items} items]",
+                                bool(all(it._points is st for it, st in zip(items, stored)) and [it.name for it in items] == ["a", "b", "c"] and all(it.mesh is True for it in items)
+                                     and all(r is not it and r._points is not it._points for it in items)))
     obls, n = explore(body)
     return dict(obls=obls, paths=n, sources=[load_polygon(dict(), mutate)[0].info()], consistent=True)
 
@@ -558,6 +579,26 @@ def native(seed=0, trials=60):
                 near |= poly.contains_points(pts, radius=1e-6) != poly.contains_points(pts, radius=-1e-6)
             if np.any((got != want) & ~near):
                 bad.append(dict(what=f"{nm} disagrees with point-wise membership", trial=t, n_wrong=int(np.sum((got != want) & ~near))))
+        # class-level constructors over a short chain: left fold of the named operation in the order given, requested name / mesh flag, items untouched
+        c3 = shape()
+        ic = c3.contains_points(pts)
+        kept = [q_.points.copy() for q_ in (a, b, c3)]
+        for nm, ctor, want in (("from_union", tdgl.Polygon.from_union, ia | ib | ic), ("from_intersection", tdgl.Polygon.from_intersection, ia & ib & ic),
+                               ("from_difference", tdgl.Polygon.from_difference, ia & ~ib & ~ic)):
+            try:
+                r = ctor([a, b, c3], name="made", mesh=False)
+            except ValueError:
+                continue
+            n += 1
+            near = np.zeros(len(pts), dtype=bool)
+            for poly in (a, b, c3):
+                near |= poly.contains_points(pts, radius=1e-6) != poly.contains_points(pts, radius=-1e-6)
+            if np.any((r.contains_points(pts) != want) & ~near):
+                bad.append(dict(what=f"Polygon.{nm}([a, b, c]) disagrees with the left fold of point-wise membership", trial=t, n_wrong=int(np.sum((r.contains_points(pts) != want) & ~near))))
+            if r.name != "made" or r.mesh is not False:
+                bad.append(dict(what=f"Polygon.{nm}(..., name='made', mesh=False) returns name={r.name!r}, mesh={r.mesh!r}", trial=t))
+            if any(not np.array_equal(q_.points, k_) or np.shares_memory(q_.points, r.points) for q_, k_ in zip((a, b, c3), kept)) or (a.name, a.mesh) != ("s", True):
+                bad.append(dict(what=f"Polygon.{nm} wrote to / shares the vertices of one of its items", trial=t))
         if t < 3:
             # a small shape whose corners all lie inside a non-convex shape while one of its edges crosses a notch of it
             ell_ = tdgl.Polygon("L", points=np.array([[0, 0], [3, 0], [3, 1], [1, 1], [1, 3], [0, 3]], dtype=float))
@@ -701,6 +742,9 @@ MUTANTS = [
     dict(name="__sub__ dispatches to intersection", edits=[(P_, "    def __sub__(self, other: PolygonType) -> \"Polygon\":\n        return self.difference(other)", "    def __sub__(self, other: PolygonType) -> \"Polygon\":\n        return self.intersection(other)")]),
     dict(name="scale writes _points directly", edits=[(P_, "        polygon.points = affinity.scale(\n            self.polygon, xfact=xfact, yfact=yfact, origin=origin\n        )", "        polygon._points = np.array(affinity.scale(\n            self.polygon, xfact=xfact, yfact=yfact, origin=origin\n        ).exterior.coords)")]),
     dict(name="rotate(inplace=False) mutates the receiver", edits=[(P_, "        polygon = self if inplace else self.copy()\n        polygon.points = affinity.rotate(", "        polygon = self\n        polygon.points = affinity.rotate(")]),
+    dict(name="from_difference folds with union", edits=[(P_, "        polygon = cls(name=name, points=first, mesh=mesh)\n        return polygon.difference(*rest)", "        polygon = cls(name=name, points=first, mesh=mesh)\n        return polygon.union(*rest)")]),
+    dict(name="from_intersection starts from the last item", edits=[(P_, "        first, *rest = items\n        polygon = cls(name=name, points=first, mesh=mesh)\n        return polygon.intersection(*rest)", "        *rest, first = items\n        polygon = cls(name=name, points=first, mesh=mesh)\n        return polygon.intersection(*rest)")]),
+    dict(name="from_union forgets the mesh flag", edits=[(P_, "        polygon = cls(name=name, points=first, mesh=mesh)\n        return polygon.union(*rest)", "        polygon = cls(name=name, points=first)\n        return polygon.union(*rest)")]),
 ] + __import__("checks.geometry_common", fromlist=["x"]).MUTANTS
 
 
